@@ -590,6 +590,17 @@ impl HttpServer {
                 )?;
             }
             client_connection.enqueue_response(response.response)?;
+            // A connection that is already closed was only kept to absorb the responses
+            // still in flight. After a failed write nothing would wake `requests()` up for
+            // it again, so once the last of those responses has been absorbed ask for a
+            // writability notification: the next `requests()` call then reaps it.
+            if client_connection.is_done() {
+                Self::epoll_mod(
+                    &self.epoll,
+                    response.id as RawFd,
+                    epoll::EventSet::OUT | epoll::EventSet::READ_HANG_UP,
+                )?;
+            }
         }
         Ok(())
     }
